@@ -94,7 +94,10 @@ fn into_iri<'a>(s: &'a str, mut prefix: &str) -> Cow<'a, str> {
 
 fn value_to_json(value: &DataValue) -> String {
     match value {
-        DataValue::String(s) => format!("\"{}\"", s.replace("\n", "\\n").replace("\"", "\\\"")),
+        // JSON string syntax: escapes quotes, backslashes and all control characters
+        DataValue::String(s) => {
+            serde_json::to_string(s).expect("a string can always be serialised to JSON")
+        }
         x => x.to_string(),
     }
 }
